@@ -207,72 +207,123 @@ func c04Run(s *Shard) {
 	s.Bounds["max_alternatives"] = maxN
 	s.Bounds["full_permutations_up_to"] = fullPerm
 	s.Bounds["levels"] = c04Levels
-	for n := 1; n <= maxN; n++ {
+	// no criterion at all — declared so, or every criterion omitted by a bias (ratio 1): every utility is 0, the ranking is
+	// the ascending-id order with everybody linking everybody, whatever the listings
+	for n := 1; n <= 4; n++ {
 		ids := ids6[:n]
-		perms := permSet(n, fullPerm)
-		lv := c04LevelsFor(n, !quick(s))
-		dims := make([]int, n)
-		for i := range dims {
-			dims[i] = len(lv)
-		}
-		Product(dims, func(idx []int) {
-			if !s.Take() {
-				return
-			}
-			vals := make([]float64, n)
-			for i, k := range idx {
-				vals[i] = lv[k]
-			}
-			exp := c04Reference(ids, vals)
-			classes := map[float64]bool{}
-			for _, v := range exp.value {
-				classes[v] = true
-			}
-			// a smaller request right after a larger one (same process): the first n-1 alternatives only
-			if n >= 2 {
-				for _, method := range utilMethods {
-					sub := ids[:n-1]
-					c := &Case{Prop: "C04", Kind: "request", Req: c04Request(method, ids, vals, ids, sub, false), Params: M{"ids": sub, "vals": vals[:n-1], "after_larger_request": true}}
-					s.Evals++
-					s.Begin(c)
-					s.Report(c04Check(c))
+		zeros := make([]float64, n)
+		for _, method := range utilMethods {
+			for _, route := range []string{"declared-empty", "omission-ratio-1", "two-omissions"} {
+				for _, pk := range permSet(n, 4) {
+					for _, pc := range permSet(n, 4) {
+						if !s.Take() {
+							continue
+						}
+						known, chose := permute(ids, pk), permute(ids, pc)
+						req := c04Request(method, ids, zeros, known, chose, false)
+						switch route {
+						case "declared-empty":
+							req["criteria"] = L{}
+							req["methodParameters"] = M{"weights": M{}}
+							for _, a := range asL(req["knownAlternatives"]) {
+								asM(a)["criteria"] = M{}
+							}
+						case "omission-ratio-1":
+							for i, a := range asL(req["knownAlternatives"]) {
+								asM(asM(a)["criteria"])["c1"] = float64(i) // values differ; they are all omitted
+							}
+							req["biases"] = L{bias("criteriaOmission", M{"ratio": 1.0})}
+						case "two-omissions":
+							if method == "choquetIntegral" {
+								continue
+							}
+							req["criteria"] = L{crit("c1", "gain"), crit("c2", "gain")}
+							req["methodParameters"] = M{"weights": M{"c1": 1.0, "c2": 2.0}}
+							for i, a := range asL(req["knownAlternatives"]) {
+								asM(a)["criteria"] = M{"c1": float64(i), "c2": float64(n - i)}
+							}
+							req["biases"] = L{bias("criteriaOmission", M{"ratio": 0.5}), bias("criteriaOmission", M{"ratio": 0.0, "min": 1})}
+						}
+						c := &Case{Prop: "C04", Kind: "request", Req: req, Params: M{"ids": ids, "vals": zeros, "no_criterion_left": route}}
+						s.Evals++
+						s.Begin(c)
+						s.Report(c04Check(c))
+					}
 				}
 			}
-			for mi, method := range utilMethods {
-				for pki, pk := range perms {
-					for pci, pc := range perms {
-						if ((quick(s) && n == 4) || n >= 5) && !(pki == 0 || pci == 0 || pci == pki || pci == len(perms)-1) {
-							continue // n=4 quick / n>=5: every permutation of each listing, combined with 3 permutations of the other
-						}
-						for _, extra := range []bool{false, true} {
-							if extra && (mi != 0 || n > 4) && quick(s) {
-								continue
+		}
+	}
+	for _, idSet := range [][]string{ids6, {"x1", "X1", "b", "B"}} {
+		for n := 1; n <= maxN; n++ {
+			if n > len(idSet) || (idSet[0] != ids6[0] && n > 3) {
+				continue // ids that differ only in letter case: up to three alternatives
+			}
+			ids := idSet[:n]
+			perms := permSet(n, fullPerm)
+			lv := c04LevelsFor(n, !quick(s))
+			dims := make([]int, n)
+			for i := range dims {
+				dims[i] = len(lv)
+			}
+			Product(dims, func(idx []int) {
+				if !s.Take() {
+					return
+				}
+				vals := make([]float64, n)
+				for i, k := range idx {
+					vals[i] = lv[k]
+				}
+				exp := c04Reference(ids, vals)
+				classes := map[float64]bool{}
+				for _, v := range exp.value {
+					classes[v] = true
+				}
+				// a smaller request right after a larger one (same process): the first n-1 alternatives only
+				if n >= 2 {
+					for _, method := range utilMethods {
+						sub := ids[:n-1]
+						c := &Case{Prop: "C04", Kind: "request", Req: c04Request(method, ids, vals, ids, sub, false), Params: M{"ids": sub, "vals": vals[:n-1], "after_larger_request": true}}
+						s.Evals++
+						s.Begin(c)
+						s.Report(c04Check(c))
+					}
+				}
+				for mi, method := range utilMethods {
+					for pki, pk := range perms {
+						for pci, pc := range perms {
+							if ((quick(s) && n == 4) || n >= 5) && !(pki == 0 || pci == 0 || pci == pki || pci == len(perms)-1) {
+								continue // n=4 quick / n>=5: every permutation of each listing, combined with 3 permutations of the other
 							}
-							known, chose := permute(ids, pk), permute(ids, pc)
-							c := &Case{Prop: "C04", Kind: "request", Req: c04Request(method, ids, vals, known, chose, extra),
-								Params: M{"ids": ids, "vals": vals}}
-							s.Evals++
-							s.Begin(c)
-							out := Decide(J(c.Req), nil)
-							if !out.Accepted {
-								s.Report([]Violation{viol(c, "C04/rejected", "valid utility request rejected: %s", out.Err)})
-								continue
-							}
-							resp, err := ParseResponse(out.Body)
-							if err != nil {
-								s.Report([]Violation{viol(c, "C04/unparsable", "%v", err)})
-								continue
-							}
-							s.Report(c04Compare(c, resp, exp))
-							s.Outcome(len(classes) >= 2, method, out.Body)
-							if n == 3 && len(classes) == 2 {
-								s.Sample(M{"request": c.Req, "response": string(out.Body)})
+							for _, extra := range []bool{false, true} {
+								if extra && (mi != 0 || n > 4) && quick(s) {
+									continue
+								}
+								known, chose := permute(ids, pk), permute(ids, pc)
+								c := &Case{Prop: "C04", Kind: "request", Req: c04Request(method, ids, vals, known, chose, extra),
+									Params: M{"ids": ids, "vals": vals}}
+								s.Evals++
+								s.Begin(c)
+								out := Decide(J(c.Req), nil)
+								if !out.Accepted {
+									s.Report([]Violation{viol(c, "C04/rejected", "valid utility request rejected: %s", out.Err)})
+									continue
+								}
+								resp, err := ParseResponse(out.Body)
+								if err != nil {
+									s.Report([]Violation{viol(c, "C04/unparsable", "%v", err)})
+									continue
+								}
+								s.Report(c04Compare(c, resp, exp))
+								s.Outcome(len(classes) >= 2, method, out.Body)
+								if n == 3 && len(classes) == 2 {
+									s.Sample(M{"request": c.Req, "response": string(out.Body)})
+								}
 							}
 						}
 					}
 				}
-			}
-		})
+			})
+		}
 	}
 	// more than 12 alternatives (sort implementations change strategy there): every two-level assignment of 13
 	// alternatives (thorough: also 14 with three levels sampled by structure) through one utility method each
